@@ -125,3 +125,59 @@ func reproTornPrimaryTail() (bool, string) {
 	}
 	return false, "all keys intact after GC"
 }
+
+func init() {
+	run.Registry["C01"].Findings = map[string]func() (bool, string){
+		"keys-of-one-bucket-sharing-255-bytes": reproSharedPrefix255,
+	}
+	run.Registry["C08"].Findings = map[string]func() (bool, string){
+		"keys-of-one-bucket-sharing-255-bytes": reproSharedPrefix255,
+	}
+}
+
+// reproSharedPrefix255: three legal keys (identity multihashes with 257-byte digests) of one bucket
+// that differ only in their last byte. The distinguishing prefix the index has to store is 256
+// bytes long, its length is stored in one byte.
+func reproSharedPrefix255() (bool, string) {
+	cfg := gen.Config{Primary: gen.MH, Bits: 8, IndexFileSize: 4096, PrimaryFileSize: 65536, FileCache: 512}
+	env, err := core.NewEnv(cfg)
+	if err != nil {
+		return false, "scratch dir: " + err.Error()
+	}
+	defer env.Cleanup()
+	s, err := env.Open()
+	if err != nil {
+		return false, "open: " + err.Error()
+	}
+	defer func() { core.Protect(func() { s.Close() }) }()
+	mk := func(last byte) []byte {
+		d := bytes.Repeat([]byte{0xab}, 257)
+		d[256] = last
+		return gen.EncodeMH(0x00, d)
+	}
+	bad := ""
+	p := core.Protect(func() {
+		keys := [][]byte{mk(1), mk(2), mk(3)}
+		for i, k := range keys {
+			if err := s.Put(k, []byte{byte(i), 7}); err != nil {
+				bad = fmt.Sprintf("Put of key %d failed: %v", i, err)
+				return
+			}
+		}
+		s.Flush()
+		for i, k := range keys {
+			v, ok, err := s.Get(k)
+			if err != nil || !ok || !bytes.Equal(v, []byte{byte(i), 7}) {
+				bad = fmt.Sprintf("key %d reads (%x, found=%v, err=%v) after three keys sharing 256 digest bytes were stored", i, v, ok, err)
+				return
+			}
+		}
+	})
+	if p != nil {
+		return true, truncStr(fmt.Sprintf("storing the second/third of three keys sharing 256 digest bytes panicked: %v", p), 200)
+	}
+	if bad != "" {
+		return true, bad
+	}
+	return false, "three keys sharing 256 digest bytes were stored and read back"
+}
